@@ -192,3 +192,55 @@ func TestVerifReplaySyncInterruptedWhileReading(t *testing.T) {
 		t.Logf("REPLAY-NOT-REPRODUCED")
 	}
 }
+
+// C07 / C15: each of the four writers, when it reports success, has changed the store (history of the model: a
+// writer returns nil without having committed its transaction; the read that follows sees the old content).
+func TestVerifReplayWritesAreCommitted(t *testing.T) {
+	state, passwdFile, err := setupValidRuntimeStateSigner(t)
+	if err != nil {
+		t.Fatal(err)
+	}
+	defer os.Remove(passwdFile.Name())
+	tmpdir, err := os.MkdirTemp("", "verif-storage-")
+	if err != nil {
+		t.Fatal(err)
+	}
+	defer os.RemoveAll(tmpdir)
+	state.Config.Base.DataDirectory = tmpdir
+	if err := initDB(state); err != nil {
+		t.Fatal(err)
+	}
+	defer func() { state.dbDone <- struct{}{} }()
+	confirmed := false
+	p, _, _, err := state.LoadUserProfile("alice")
+	if err != nil {
+		t.Fatal(err)
+	}
+	if err := state.SaveUserProfile("alice", p); err == nil {
+		if _, ok, _, _ := state.LoadUserProfile("alice"); !ok {
+			t.Logf("REPLAY-CONFIRMED: SaveUserProfile returned nil but the profile is not in the store")
+			confirmed = true
+		}
+	}
+	if err := state.UpsertSigned("alice", 1, time.Now().Add(time.Hour).Unix(), "hash"); err == nil {
+		if ok, _, _ := state.GetSigned("alice", 1); !ok {
+			t.Logf("REPLAY-CONFIRMED: UpsertSigned returned nil but the record is not in the store")
+			confirmed = true
+		}
+	}
+	if err := state.DeleteSigned("alice", 1); err == nil {
+		if ok, _, _ := state.GetSigned("alice", 1); ok {
+			t.Logf("REPLAY-CONFIRMED: DeleteSigned returned nil but the record is still served")
+			confirmed = true
+		}
+	}
+	if err := state.DeleteUserProfile("alice"); err == nil {
+		if _, ok, _, _ := state.LoadUserProfile("alice"); ok {
+			t.Logf("REPLAY-CONFIRMED: DeleteUserProfile returned nil but the profile is still served")
+			confirmed = true
+		}
+	}
+	if !confirmed {
+		t.Logf("REPLAY-NOT-REPRODUCED")
+	}
+}
